@@ -154,8 +154,7 @@ def setPositionAt (m : CMod) (s1 : St) (seq dir pos1 : Int) : St :=
       else if pos2 > sc.scanOrd then
         setPositionFin m { s2 with f := { s2.f with endPoint := 0 } } pos2
       else
-        setPositionFin m { s2 with f := { s2.f with numRows := m.rowsOf pat, endPoint := sc.scanNum,
-                                                    jumpline := 0 } } pos2
+        setPositionFin m { s2 with f := { s2.f with endPoint := sc.scanNum, jumpline := 0 } } pos2
     else setPositionFin m s2 pos2
 
 /-- static `set_position(ctx, pos, dir)`; `none` = the marker loop ran out of fuel. -/
